@@ -133,6 +133,39 @@ def oracle(case):
     require(np.all(finite_ok), 'sample(5) contains NaN / unexpected inf: %r' % vals[~finite_ok][:3], tag='sample-finite')
     pdf = np.asarray(value(model.probability_density, df.head(5), what='probability_density'), dtype=float)
     require(pdf.shape == (min(5, len(df)),) and np.all(np.isfinite(pdf)) and np.all(pdf >= 0), 'probability_density(head) = %r' % pdf, tag='pdf')
+    # "... regularised so that sampling still works": conditioning on a pair of columns that carry the same information
+    # (|corr| = 1 up to rounding - the 2x2 block to be inverted is singular without the ridge) must give the law of
+    # conditioning on one of them.  Checked on a free column with a closed-form marginal, with values from a training row.
+    cls_extra = []
+    pair = None
+    if d >= 3:
+        # only pairs whose normal scores are the same numbers up to rounding (a duplicate, a negation or an affine copy
+        # under a location-scale marginal): for a pair that is merely close (|corr| = 1 - 1e-12) a difference of 1e-7
+        # between the two given scores is real information under the fitted model and the conditional law legitimately moves
+        for a_ in range(d):
+            for b_ in range(a_ + 1, d):
+                if pair is None and not flat[a_] and not flat[b_] and \
+                        min(np.max(np.abs(Z[:, a_] - Z[:, b_])), np.max(np.abs(Z[:, a_] + Z[:, b_]))) <= 1e-13:
+                    pair = (a_, b_)
+    if pair is not None:
+        i, j = pair
+        free = [k for k in range(d) if k not in pair and not flat[k]
+                and type(getattr(model.univariates[k], '_instance', None) or model.univariates[k]).__name__ in ('GaussianUnivariate', 'UniformUnivariate')]
+        r = int(np.argmin(np.abs(Z[:, i])))             # a central training row: no censoring of the scores
+        if free and abs(Z[r, i]) < 2 and not flat[i] and not flat[j]:
+            k = free[0]
+            conds = {names[i]: float(df.iloc[r, i]), names[j]: float(df.iloc[r, j])}
+            ns = 300
+            out = value(model.sample, ns, conditions=conds, what='sample(conditions on two numerically identical columns)')
+            zk = stats.norm.ppf(np.clip(np.asarray(model.univariates[k].cdf(out[names[k]].to_numpy()), dtype=float), EPS32, 1 - EPS32))
+            rho = float(mine[k, i])
+            want_mean, want_sd = rho * Z[r, i], float(np.sqrt(max(1 - rho * rho, 0.0)))
+            band = 7.0 * want_sd / np.sqrt(ns) + 0.02
+            require(np.all(np.isfinite(zk)) and abs(float(np.mean(zk)) - want_mean) <= band,
+                    'sample(%d, conditions on %r and %r - normal scores correlated %.15f): the free column %r has mean normal score %.3f, '
+                    'conditioning on either column alone gives %.3f (sd %.3f, band %.3f): the singular block was not regularised'
+                    % (ns, names[i], names[j], mine[i, j], names[k], float(np.mean(zk)), want_mean, want_sd, band), tag='singular-conditioning')
+            cls_extra.append('conditioned-on-singular-pair')
     degenerate = cond > 1e12 or flat.any()
     cls = ['d=%d' % d, 'config:' + case['config']['mode'], 'refitted-model' if case.get('prefit_seed') is not None else 'fresh-model']
     if cond > 1e15:
@@ -147,6 +180,7 @@ def oracle(case):
         cls.append('derived:' + op['op'])
     if case.get('offsets'):
         cls.append('offset-column')
+    cls += cls_extra
     return {'nontrivial': d >= 3 or bool(degenerate), 'classes': cls}
 
 
